@@ -40,6 +40,10 @@ def parse_run(seed):
     cps = re.findall(r"cp\s+(\S+\.rs)\s+(\S+/tests/?)", txt)
     tests = re.findall(r"(cargo test[^\n`]*--test\s+\S+[^\n`]*)", txt)
     if not cps or not tests:
+        # a shell demo run from the worktree root against the freshly built command-line tool
+        m = re.search(r"sh\s+(\S+/demo/)?(demo\.sh)", txt)
+        if m and os.path.exists(f"{seed}/demo/demo.sh"):
+            return ("SH", "", f"cargo build -p minidump-stackwalk --offline -q 2>&1 | tail -3; sh {seed}/demo/demo.sh")
         return None
     src, dst = cps[0]
     cmd = tests[0].strip()
@@ -49,6 +53,13 @@ def parse_run(seed):
 
 def run_demo(seed, spec):
     src, dst, cmd = spec
+    if src == "SH":
+        try:
+            rc, out = sh(f"timeout 1500 sh -c '{cmd}'", cwd=WT, env=dict(ENV, RUST_BACKTRACE="0"), timeout=1800)
+        except subprocess.TimeoutExpired:
+            rc, out = 124, "TIMEOUT"
+        sh(f"git -C {WT} clean -fdq -e target")
+        return rc, [], out[-1500:]
     if not os.path.isabs(src):
         src = os.path.join(seed, "demo", os.path.basename(src))
     os.makedirs(f"{WT}/{dst}", exist_ok=True)
